@@ -96,12 +96,13 @@ PROPERTIES = {
              'length reset and its slot is read once; bags are unwrapped only through the counts-match check; leak primitives only at '
              'the re-owned site. Not decided: drop counts themselves; dependency drop behaviour (T3).'),
     'C14': P('a panicking closure propagates as a panic and never corrupts memory',
-             ['C14-PARTIAL', 'C14-WINDOW', 'C14-PROPAGATE', 'S2'],
+             ['C14-PARTIAL', 'C14-WINDOW', 'C14-PROPAGATE', 'C14-NOWAIT', 'S2'],
              STATIC + 'Decided: no destructor of a partially written positional buffer is reachable from the runner call\'s unwind edge '
              '(drop-flag aware); no user code can run inside the double-drop window of the merge; join results are unwrapped, nothing '
-             'catches or detaches a panic. Not decided: thread::scope re-raises (T2).'),
+             'catches or detaches a panic; no loop on the path of a terminal call waits only on state that other threads advance '
+             '(a dead worker advances nothing) and no blocking primitive is called. Not decided: thread::scope re-raises (T2).'),
     'C15': P('parameters never change a result or make a computation fail',
-             ['C15-OBLIG', 'C15-CLAMP'],
+             ['C15-OBLIG', 'C15-CLAMP', 'C15-ALLOC'],
              STATIC + 'Decided: every panic site (overflow/div-by-zero assertion, expect, assert) of the parameter-resolution slice that '
              'depends on the configuration is discharged by a dominating guard, a constructor invariant, an arithmetic lemma or a stated '
              'assumption. Not decided: equality of results across configurations (conjunction of C01-C07); panics inside dependencies.',
